@@ -58,6 +58,18 @@ var ruleTextPredicate = &core.Rule{ID: "R07.1", Min: 256,
 	Doc: "the text detector's per-byte rejection predicate, tabulated over 0..255 from its scanning loop, equals the WHATWG binary-data-byte table",
 	Run: func(c *core.Ctx, s *core.Sink) {
 		_, f := textDetector(c)
+		if call, set, _ := textSearchForm(f); call != nil {
+			for b := 0; b < 256; b++ {
+				key := fmt.Sprintf("byte %#02x", b)
+				want := whatwgBinary(b)
+				if set[byte(b)] == want {
+					s.OK(key, c.Pos(call.Pos()), map[bool]string{true: "binary data byte, in the searched set", false: "text byte, not searched for"}[want])
+				} else {
+					s.Bad(key, c.Pos(call.Pos()), fmt.Sprintf("code treats byte %#02x as binary=%v, the WHATWG binary data byte table says %v", b, set[byte(b)], want))
+				}
+			}
+			return
+		}
 		_, tab, _, err := tabulateRange(c, f, f.Params[0], nil)
 		if err != nil {
 			core.Bail("text detector: %v", err)
@@ -82,6 +94,54 @@ var ruleTextPredicate = &core.Rule{ID: "R07.1", Min: 256,
 		}
 	}}
 
+// textSearchForm recognises the scan written as a library search: the verdict
+// after the BOM exit is bytes.IndexAny(header, K) == -1 (or < 0), or
+// !bytes.ContainsAny(header, K), on the unmodified header with a constant K of
+// ASCII characters only (for such K both functions look at single bytes). It
+// returns the call, the set and the return it decides.
+func textSearchForm(f *ssa.Function) (*ssa.Call, map[byte]bool, *ssa.Return) {
+	for _, r := range core.Returns(f) {
+		v := r.Results[0]
+		neg := false
+		if u, ok := v.(*ssa.UnOp); ok && u.Op == token.NOT {
+			v, neg = u.X, true
+		}
+		var call *ssa.Call
+		if bo, ok := v.(*ssa.BinOp); ok && !neg {
+			c2, isCall := bo.X.(*ssa.Call)
+			if !isCall || !core.CalleeIs(&c2.Call, "bytes", "IndexAny") {
+				continue
+			}
+			if !((bo.Op == token.EQL && core.IsConstInt(bo.Y, -1)) || (bo.Op == token.LSS && core.IsConstInt(bo.Y, 0))) {
+				continue
+			}
+			call = c2
+		} else if c2, ok := v.(*ssa.Call); ok && neg && core.CalleeIs(&c2.Call, "bytes", "ContainsAny") {
+			call = c2
+		}
+		if call == nil || call.Call.Args[0] != ssa.Value(f.Params[0]) {
+			continue
+		}
+		k, ok := core.ConstString(call.Call.Args[1])
+		if !ok {
+			continue
+		}
+		set := map[byte]bool{}
+		ascii := true
+		for i := 0; i < len(k); i++ {
+			if k[i] >= 0x80 {
+				ascii = false
+			}
+			set[k[i]] = true
+		}
+		if !ascii {
+			continue
+		}
+		return call, set, r
+	}
+	return nil, nil, nil
+}
+
 // R07.2
 var ruleTextShape = &core.Rule{ID: "R07.2", Min: 4,
 	Doc: "the text detector scans the whole unmodified header from index 0; the only exits are true after the loop and true when the BOM lookup on the unmodified header is non-empty (which precedes the loop); the limit parameter is not consulted",
@@ -89,6 +149,41 @@ var ruleTextShape = &core.Rule{ID: "R07.2", Min: 4,
 		cm := getCharset(c)
 		cm.needBOM()
 		_, f := textDetector(c)
+		if call, _, sret := textSearchForm(f); call != nil && loopHeaderOf(f) == nil {
+			s.OK("scan over unmodified header parameter from index 0", c.Pos(call.Pos()), "library search over the whole parameter")
+			for _, ret := range core.Returns(f) {
+				key := returnOrdinal(ret)
+				if ret == sret {
+					s.OK(key, c.Pos(ret.Pos()), "verdict of the search (byte table: R07.1)")
+					continue
+				}
+				v, isConst := core.ConstBool(ret.Results[0])
+				ok := false
+				for _, de := range core.DominatingConds(ret.Block()) {
+					if isBomNonEmpty(cm, de, f.Params[0]) {
+						ok = true
+					}
+				}
+				s.Check(isConst && v && ok, key, c.Pos(ret.Pos()), "true under BOM lookup(header) != \"\"", "an exit other than the search's verdict that is not `true` under a non-empty BOM lookup of the unmodified header")
+			}
+			// nothing but the BOM lookup runs before the search
+			for _, ci := range core.Calls(f) {
+				if ci == ssa.CallInstruction(call) || core.IsBuiltin(ci.Common(), "len") {
+					continue
+				}
+				s.Check(ci.Common().StaticCallee() == cm.bomFn && ci.Common().Args[0] == ssa.Value(f.Params[0]), "only the BOM lookup precedes the search: "+callOrdinal(ci), c.Pos(ci.Pos()), "BOM lookup on the header", "the text detector calls something else than the BOM lookup and the search")
+			}
+			used := false
+			if len(f.Params) > 1 {
+				for _, ref := range *f.Params[1].Referrers() {
+					if _, dbg := ref.(*ssa.DebugRef); !dbg {
+						used = true
+					}
+				}
+			}
+			s.Check(!used, "limit parameter unused", c.Pos(f.Pos()), "no use", "the text detector consults the limit parameter")
+			return
+		}
 		rs := fde.FindRangeOver(f, f.Params[0])
 		if len(rs) == 0 && loopHeaderOf(f) != nil {
 			s.Bad("scan over unmodified header parameter from index 0", c.Pos(f.Pos()), "the text detector's scanning loop does not range over the whole unmodified header from its first byte (it scans a re-slice or a window): binary data bytes outside the scanned part would go unnoticed")
